@@ -797,7 +797,7 @@ class ClusterTask:
                 h.update(hashlib.sha256(fh.read()).digest())
         h.update(f"{tier}|{os.environ.get('VERIF_SEED', '0')}|{self.factory_mod}.{self.factory_name}".encode())
         key = h.hexdigest()[:32]
-        cdir = os.path.join(ROOT, "out", "cluster_cache")
+        cdir = os.path.join(os.environ.get("VERIF_OUT_DIR") or os.path.join(ROOT, "out"), "cluster_cache")
         cpath = os.path.join(cdir, key + ".pickle")
         if not os.environ.get("VERIF_NO_CLUSTER_CACHE") and os.path.exists(cpath):
             try:
